@@ -107,6 +107,17 @@ def ev(e, env):
                     return int(a == b)
                 if p == "ne":
                     return int(a != b)
+                # ordering of two pointers into the same object that differ only in their last element index
+                if isinstance(a, tuple) and isinstance(b, tuple) and a[0] == "ptr" and b[0] == "ptr" and a[1] == b[1]:
+                    def split(q):
+                        path = list(q[2])
+                        if path and isinstance(path[-1], tuple) and path[-1][0] == "i" and isinstance(path[-1][1], int):
+                            return tuple(path[:-1]), path[-1][1]
+                        return tuple(path), 0
+                    (ha, ia), (hb, ib) = split(a), split(b)
+                    if ha == hb:
+                        return int({"ult": ia < ib, "ule": ia <= ib, "ugt": ia > ib, "uge": ia >= ib,
+                                    "slt": ia < ib, "sle": ia <= ib, "sgt": ia > ib, "sge": ia >= ib}[p])
                 raise Unknown()
             if p[0] == "u":
                 ob = e[5]
@@ -313,6 +324,14 @@ class PE:
         if k == "reg":
             return frame.regs.get(v.v, TOP)
         if k == "global":
+            # a module-private global (string literal, static table) named inside an inlined function of another module is
+            # that module's object, not the same-named one of the analysed function's module
+            mod = frame.fn.module if frame is not None else None
+            home = getattr(self, "home_module", None)
+            if mod is not None and home is not None and mod is not home:
+                gg = mod.globals.get(v.v)
+                if gg is not None and (gg.internal or v.v.startswith(".")):
+                    return ("ptr", "@" + v.v + "\0" + mod.srcname, ())
             return ("ptr", "@" + v.v, ())
         if k == "cexpr":
             if v.v in ("bitcast", "addrspacecast", "inttoptr", "ptrtoint"):
@@ -384,9 +403,13 @@ class PE:
             return p, 0
         ha, la = last(pa)
         hb, lb = last(pb)
-        if ha != hb or not isinstance(la, int) or not isinstance(lb, int):
+        if ha != hb:
             return TOP
-        return C(la - lb)
+        if isinstance(la, int) and isinstance(lb, int):
+            return C(la - lb)
+        ea = C(la) if isinstance(la, int) else la
+        eb = C(lb) if isinstance(lb, int) else lb
+        return mk("sub", "i64", ea, eb)
 
     def prog_structs(self, t):
         for m in self.prog.modules:
@@ -435,9 +458,9 @@ class PE:
         if loc in state.mem:
             return state.mem[loc]
         if loc[0].startswith("@") and not loc[1]:
-            home = getattr(self, "home_module", None)
-            for m in ([home] if home is not None else []) + [x for x in self.prog.modules if x is not home]:
-                gg = m.globals.get(loc[0][1:])
+            gname, gmods = self._gmods(loc[0][1:])
+            for m in gmods:
+                gg = m.globals.get(gname)
                 if gg is not None:
                     if gg.constant and gg.init is not None and gg.init.kind == "int":
                         return C(gg.init.v)
@@ -469,11 +492,20 @@ class PE:
             return
         state.mem[loc] = val
 
+    def _gmods(self, name):
+        """(plain name, modules to search in order) for a possibly module-qualified global name"""
+        if "\0" in name:
+            name, mn = name.split("\0", 1)
+            return name, [m for m in self.prog.modules if m.srcname == mn]
+        home = getattr(self, "home_module", None)
+        return name, ([home] if home is not None else []) + [x for x in self.prog.modules if x is not home]
+
     def _const_aggregate(self, name, path):
         """element of a constant global array / struct initialiser addressed by a concrete path, as a constant expression"""
-        home = getattr(self, "home_module", None)
+        qual = name.split("\0", 1)[1] if "\0" in name else None
+        name, mods = self._gmods(name)
         g = None
-        for m in ([home] if home is not None else []) + [x for x in self.prog.modules if x is not home]:
+        for m in mods:
             g = m.globals.get(name)
             if g is not None:
                 break
@@ -497,6 +529,16 @@ class PE:
             return C(v.v)
         if v.kind == "null":
             return C(0)
+        # a pointer to another global (a table of string literals / function pointers)
+        w = v
+        hops = 0
+        while w.kind == "cexpr" and w.args and hops < 4:
+            if w.v == "getelementptr" and not all(a.kind == "int" and a.v == 0 for a in w.args[1:]):
+                return None
+            w = w.args[0]
+            hops += 1
+        if w.kind == "global":
+            return ("ptr", "@" + w.v + (("\0" + qual) if qual and (w.v.startswith(".") or (g.module is not None and w.v in g.module.globals and g.module.globals[w.v].internal)) else ""), ())
         return None
 
     def global_bytes(self, name):
@@ -505,8 +547,9 @@ class PE:
         if name in cache:
             return cache[name]
         r = None
-        home = getattr(self, "home_module", None)
-        for m in ([home] if home is not None else []) + [x for x in self.prog.modules if x is not home]:
+        full = name
+        name, mods = self._gmods(name)
+        for m in mods:
             g = m.globals.get(name)
             if g is not None and g.constant:
                 if g.bytes is not None:
@@ -514,7 +557,7 @@ class PE:
                 elif g.init is not None and g.init.kind == "array" and all(a.kind == "int" for a in g.init.args):
                     r = bytes(a.v % 256 for a in g.init.args)
                 break
-        cache[name] = r
+        cache[full] = r
         return r
 
     def fresh_root(self, state, hint, domain):
